@@ -65,6 +65,7 @@ def main():
 
 def _main(args):
     all_checks = "--all-checks" in args
+    previous = "--previous" in args  # only the checks that detected the change in the recorded matrix
     jobs = 4
     if "--jobs" in args:
         jobs = int(args[args.index("--jobs") + 1])
